@@ -532,7 +532,7 @@ def _scripted_games(run, budget):
             if _ending(end) == "flats-draw":
                 lines.append((n, "draw", line))
                 got["flats-draw"] += 1
-    small = [0.0, 0.25, -0.25, 0.375, -0.4921875]
+    small = [0.0, -0.0, 0.25, -0.25, 0.375, -0.4921875]
 
     def add(n, kind, line, thr, limit, vz, tag):
         if len(out) >= budget:
@@ -561,6 +561,14 @@ def _scripted_games(run, budget):
             add(n, kind, line, thr, 100 if L <= 100 else 1000,
                 (lambda i, k=k, sign=sign, mag=mag, below=below: sign * mag if i == k else rng.choice(below)),
                 f"resign@{k} thr={thr} v0={sign * mag}")
+    # threshold 0 (the int and the float): abs(v_zero) >= 0 always holds, so EVERY game stops after one recorded
+    # position, won by the side to move when v_zero >= 0 (incl. -0.0) and by the opponent otherwise
+    zero_lines = [ln for ln in lines if ln[1] == "random"][:2] + lines[:2] + lines[6:8]
+    for li, (n, kind, line) in enumerate(zero_lines):
+        for thr in (0, 0.0):
+            for v0 in ((0.0, -0.0, 0.25) if li % 2 == 0 else (-0.25, 1.0, -1.0)):
+                add(n, kind, line, thr, (100, 0, 5)[li % 3], (lambda i, v0=v0: v0),
+                    f"threshold {thr!r}: resign@0 v0={v0!r}")
     return out
 
 
@@ -578,14 +586,23 @@ def _free_games(run, count):
         limit = rng.choice([0, 1, 5, 100, 100, 12, 30])
         g = _play(n, thr, limit, FreeEngine(rng, pool))
         out.append(({"kind": "free", "size": n}, g))
+    for j in range(6 if run.quick else 60):              # threshold 0 / 0.0: one recorded position, always
+        torch.manual_seed(rng.randrange(1 << 30))
+        thr = (0, 0.0)[j % 2]
+        g = _play(rng.choice([3, 4, 5]), thr, rng.choice([0, 5, 100]),
+                  FreeEngine(rng, [0.0, -0.0, 0.125, -0.125, 1.0, -1.0]))
+        out.append(({"kind": "free", "size": g["size"], "variant": f"threshold {thr!r}"}, g))
     return out
 
 
 class _Uniform:
+    def __init__(self, value=0.0):
+        self.value = value
+
     def evaluate(self, position):
         import torch
         from tak.model import encoding
-        return torch.full((encoding.MAX_MOVE_ID,), 1.0 / encoding.MAX_MOVE_ID), 0.0
+        return torch.full((encoding.MAX_MOVE_ID,), 1.0 / encoding.MAX_MOVE_ID), self.value
 
 
 class _RandomEval:
@@ -620,6 +637,15 @@ def _mcts_games(run, count):
         eng = mcts.MCTS(mcts.Config(time_limit=0, simulation_limit=sims, root_noise_alpha=noise), ev)
         g = _play(n, thr, limit, eng)
         out.append(({"kind": "mcts", "size": n, "sims": sims, "evaluator": "uniform" if uniform else "random"}, g))
+    for j in range(6 if run.quick else 60):              # threshold 0 / 0.0 with the real search
+        thr = (0, 0.0)[j % 2]
+        n = rng.choice([3, 3, 4])
+        ev = [_Uniform(), _Uniform(-0.0), _RandomEval(rng.randrange(1 << 30), 1.0)][(j // 2) % 3]
+        torch.manual_seed(rng.randrange(1 << 30))
+        eng = mcts.MCTS(mcts.Config(time_limit=0, simulation_limit=rng.choice([2, 4, 8])), ev)
+        g = _play(n, thr, rng.choice([100, 12]), eng)
+        out.append(({"kind": "mcts", "size": n, "variant": f"threshold {thr!r}",
+                     "evaluator": type(ev).__name__ + (" v=-0.0" if getattr(ev, "value", 0.0) == 0 and str(getattr(ev, "value", 0.0)) == "-0.0" else "")}, g))
     return out
 
 
